@@ -1,11 +1,255 @@
-/- Hand-written executable model (tie B): Norm.  Core Lean only — no Mathlib import in this file. -/
+/- Hand-written executable model (tie B): Norm — the normalizers of `gstools/normalizer/methods.py`
+   (LogNormal, BoxCox, BoxCoxShift, YeoJohnson, Modulus, Manly and the identity base class), the masking
+   logic of `Normalizer._check_input` / `normalize` / `denormalize` / `derivative`, the (kernel)
+   log-likelihood of `normalizer/base.py`, and the element-wise meaning of `apply_mean_norm_trend` /
+   `remove_trend_norm_mean` (`normalizer/tools.py`, used by `Field.post_field` and `Krige._krige_cond`).
+   Core Lean only — no Mathlib import in this file.
+
+   Every `_normalize/_denormalize/_derivative` is written expression by expression as in the code; the
+   `np.isclose(self.lmbda, c)` tests are the Booleans `c0` (c = 0) and `c2` (c = 2) computed by `isclose`.
+   `np.log1p(x)` / `np.expm1(x)` are modelled as `log (1 + x)` / `exp x - 1` (same real functions).
+   Infinite range ends are `none`; NaN results of the masking are `none`. -/
 import GSV.Proto
 open Lean GSV GSV.Proto GSV.Transc
 namespace GSV.Model.Norm
 
+variable {α : Type} [Arith α] [Transc α] [DecidableLT α] [DecidableLE α]
+
+/-- the normalizer classes; `identity` is the base class `Normalizer` (what `normalizer=None` means) -/
+inductive Kind where
+  | identity | logNormal | boxCox | boxCoxShift | yeoJohnson | modulus | manly
+  deriving DecidableEq, Repr, Inhabited
+
+/-- parameters (`lmbda`, `shift`); classes ignore the ones they do not have -/
+structure Par (α : Type) where
+  lmbda : α
+  shift : α
+
+/-- an open interval with possibly infinite ends (`none` = `∓inf`) -/
+structure Rng (α : Type) where
+  lo : Option α
+  hi : Option α
+
+/-- `np.isclose(a, b)` with the default `rtol=1e-5, atol=1e-8`: `|a - b| <= atol + rtol * |b|` -/
+def isclose (a b : α) : Bool := decide (fabs (a - b) ≤ (1e-8:α) + (1e-5:α) * fabs b)
+
+/-- `np.sign` on non-NaN data -/
+def sgn (x : α) : α :=
+  if x > ((0:Nat):α) then ((1:Nat):α) else if x < ((0:Nat):α) then -((1:Nat):α) else ((0:Nat):α)
+
+/-- `np.isclose(self.lmbda, 0)` -/
+def c0 (p : Par α) : Bool := isclose p.lmbda ((0:Nat):α)
+/-- `np.isclose(self.lmbda, 2)` -/
+def c2 (p : Par α) : Bool := isclose p.lmbda ((2:Nat):α)
+
+/-! ### `_normalize`, `_denormalize`, `_derivative` (no masking) -/
+
+/-- `_normalize(data)` on one datum -/
+def normRaw (k : Kind) (p : Par α) (x : α) : α :=
+  match k with
+  | .identity => x
+  | .logNormal => log x
+  | .boxCox =>
+    if c0 p then log x else (rpow x p.lmbda - ((1:Nat):α)) / p.lmbda
+  | .boxCoxShift =>
+    if c0 p then log (x + p.shift) else (rpow (x + p.shift) p.lmbda - ((1:Nat):α)) / p.lmbda
+  | .yeoJohnson =>
+    if x ≥ ((0:Nat):α) then
+      (if c0 p then log (((1:Nat):α) + x) else (rpow (x + ((1:Nat):α)) p.lmbda - ((1:Nat):α)) / p.lmbda)
+    else
+      (if c2 p then -(log (((1:Nat):α) + (-x)))
+       else -(rpow (-x + ((1:Nat):α)) (((2:Nat):α) - p.lmbda) - ((1:Nat):α)) / (((2:Nat):α) - p.lmbda))
+  | .modulus =>
+    if c0 p then sgn x * log (((1:Nat):α) + fabs x)
+    else sgn x * (rpow (fabs x + ((1:Nat):α)) p.lmbda - ((1:Nat):α)) / p.lmbda
+  | .manly =>
+    if c0 p then x else (exp (x * p.lmbda) - ((1:Nat):α)) / p.lmbda
+
+/-- `_denormalize(data)` on one datum -/
+def denormRaw (k : Kind) (p : Par α) (y : α) : α :=
+  match k with
+  | .identity => y
+  | .logNormal => exp y
+  | .boxCox =>
+    if c0 p then exp y else rpow (((1:Nat):α) + y * p.lmbda) (((1:Nat):α) / p.lmbda)
+  | .boxCoxShift =>
+    if c0 p then exp y - p.shift else rpow (((1:Nat):α) + y * p.lmbda) (((1:Nat):α) / p.lmbda) - p.shift
+  | .yeoJohnson =>
+    if y ≥ ((0:Nat):α) then
+      (if c0 p then exp y - ((1:Nat):α)
+       else rpow (y * p.lmbda + ((1:Nat):α)) (((1:Nat):α) / p.lmbda) - ((1:Nat):α))
+    else
+      (if c2 p then -(exp (-y) - ((1:Nat):α))
+       else ((1:Nat):α) - rpow (-(((2:Nat):α) - p.lmbda) * y + ((1:Nat):α)) (((1:Nat):α) / (((2:Nat):α) - p.lmbda)))
+  | .modulus =>
+    if c0 p then sgn y * (exp (fabs y) - ((1:Nat):α))
+    else sgn y * (rpow (((1:Nat):α) + p.lmbda * fabs y) (((1:Nat):α) / p.lmbda) - ((1:Nat):α))
+  | .manly =>
+    if c0 p then y else log (((1:Nat):α) + y * p.lmbda) / p.lmbda
+
+/-- `_derivative(data)` on one datum (the base class uses a central difference with `dx = 1e-6`) -/
+def derivRaw (k : Kind) (p : Par α) (x : α) : α :=
+  match k with
+  | .identity => ((x + (1e-6:α)) - (x - (1e-6:α))) / (((2:Nat):α) * (1e-6:α))
+  | .logNormal => rpow x (-((1:Nat):α))
+  | .boxCox => rpow x (p.lmbda - ((1:Nat):α))
+  | .boxCoxShift => rpow (x + p.shift) (p.lmbda - ((1:Nat):α))
+  | .yeoJohnson => rpow (fabs x + ((1:Nat):α)) (sgn x * (p.lmbda - ((1:Nat):α)))
+  | .modulus => rpow (fabs x + ((1:Nat):α)) (p.lmbda - ((1:Nat):α))
+  | .manly => exp (x * p.lmbda)
+
+/-! ### ranges -/
+
+/-- `normalize_range` -/
+def normRange (k : Kind) (p : Par α) : Rng α :=
+  match k with
+  | .logNormal | .boxCox => ⟨some ((0:Nat):α), none⟩
+  | .boxCoxShift => ⟨some (-p.shift), none⟩
+  | _ => ⟨none, none⟩
+
+/-- `denormalize_range` (BoxCox, BoxCoxShift, Manly share the text; D1 fixed: `-1/lmbda` in both branches) -/
+def denormRange (k : Kind) (p : Par α) : Rng α :=
+  match k with
+  | .boxCox | .boxCoxShift | .manly =>
+    if c0 p then ⟨none, none⟩
+    else if p.lmbda < ((0:Nat):α) then ⟨none, some (-(((1:Nat):α) / p.lmbda))⟩
+    else ⟨some (-(((1:Nat):α) / p.lmbda)), none⟩
+  | _ => ⟨none, none⟩
+
+/-! ### `_check_input` -/
+
+/-- `±inf` (only exists on `Float`): `x - x` is NaN but `x` is not -/
+def isinf (x : α) : Bool := isnan (x - x) && !isnan x
+
+/-- the range test of `_check_input` on a non-NaN datum: skipped when both ends are infinite, otherwise
+    `lo < x < hi` with strict comparisons (so `±inf` data never pass when a test is made) -/
+def inRange (r : Rng α) (x : α) : Bool :=
+  match r.lo, r.hi with
+  | none, none => true
+  | lo, hi =>
+    !isinf x
+    && (match lo with | none => true | some l => decide (x > l))
+    && (match hi with | none => true | some h => decide (x < h))
+
+/-- datum survives `_check_input` -/
+def valid (r : Rng α) (x : α) : Bool := !isnan x && inRange r x
+
+/-- the "out of range" warning of `_check_input`: some non-NaN datum fails the range test -/
+def warns (r : Rng α) (xs : List α) : Bool := xs.any fun x => !isnan x && !inRange r x
+
+/-- `Normalizer.normalize` on one datum; `none` = NaN in the output -/
+def normalize (k : Kind) (p : Par α) (x : α) : Option α :=
+  if valid (normRange k p) x then some (normRaw k p x) else none
+
+/-- `Normalizer.denormalize` on one datum -/
+def denormalize (k : Kind) (p : Par α) (y : α) : Option α :=
+  if valid (denormRange k p) y then some (denormRaw k p y) else none
+
+/-- `Normalizer.derivative` on one datum -/
+def derivative (k : Kind) (p : Par α) (x : α) : Option α :=
+  if valid (normRange k p) x then some (derivRaw k p x) else none
+
+/-! ### likelihood -/
+
+def sum (l : List α) : α := l.foldl (· + ·) ((0:Nat):α)
+def mean (l : List α) : α := sum l / ((l.length : Nat) : α)
+/-- `np.var` (population variance) -/
+def var (l : List α) : α :=
+  let m := mean l
+  sum (l.map fun y => (y - m) * (y - m)) / ((l.length : Nat) : α)
+/-- `np.maximum(a, b)` on non-NaN data -/
+def fmax (a b : α) : α := if a < b then b else a
+
+/-- `_kernel_loglikelihood` on already checked data -/
+def kernelLLRaw (k : Kind) (p : Par α) (d : List α) : α :=
+  -(0.5:α) * ((d.length : Nat) : α) * log (var (d.map (normRaw k p)))
+    + sum (d.map fun x => log (fmax (1e-16:α) (derivRaw k p x)))
+
+/-- `_loglikelihood` on already checked data -/
+def logLikRaw (k : Kind) (p : Par α) (d : List α) : α :=
+  kernelLLRaw k p d + -(0.5:α) * ((d.length : Nat) : α) * (log (((2:Nat):α) * Transc.pi) + ((1:Nat):α))
+
+/-- data kept by `_check_input(data, normalize_range, False)` -/
+def checked (k : Kind) (p : Par α) (xs : List α) : List α := xs.filter (valid (normRange k p))
+
+/-- `Normalizer.kernel_loglikelihood` -/
+def kernelLL (k : Kind) (p : Par α) (xs : List α) : α := kernelLLRaw k p (checked k p xs)
+/-- `Normalizer.loglikelihood` -/
+def logLik (k : Kind) (p : Par α) (xs : List α) : α := logLikRaw k p (checked k p xs)
+
+/-! ### mean / normalizer / trend pipeline (one cell of the field) -/
+
+/-- `apply_mean_norm_trend`: `field += mean; field = denormalize(field); field += trend` -/
+def applyMNT (k : Kind) (p : Par α) (mean trend raw : α) : Option α :=
+  (denormalize k p (raw + mean)).map (· + trend)
+
+/-- `remove_trend_norm_mean` (also `Krige._krige_cond`): `field -= trend; normalize; field -= mean` -/
+def removeTNM (k : Kind) (p : Par α) (mean trend v : α) : Option α :=
+  (normalize k p (v - trend)).map (· - mean)
+
+/-! ### driver -/
+
+def kindOf (s : String) : Except String Kind :=
+  match s with
+  | "Normalizer" => .ok .identity
+  | "LogNormal" => .ok .logNormal
+  | "BoxCox" => .ok .boxCox
+  | "BoxCoxShift" => .ok .boxCoxShift
+  | "YeoJohnson" => .ok .yeoJohnson
+  | "Modulus" => .ok .modulus
+  | "Manly" => .ok .manly
+  | _ => .error s!"unknown normalizer {s}"
+
+def fnan : Float := Float.ofBits 0x7FF8000000000000
+def finf : Float := Float.ofBits 0x7FF0000000000000
+def optF (o : Option Float) : Float := o.getD fnan
+def rngJ (r : Rng Float) : Json := fl [r.lo.getD (-finf), r.hi.getD finf]
+
+def getPar (j : Json) : Except String (Kind × Par Float) := do
+  let k ← kindOf (← getStr j "kind")
+  let l ← getFloat j "lmbda"
+  let s ← getFloat j "shift"
+  return (k, ⟨l, s⟩)
+
 /-- line-protocol operations of this model; `none` = not one of mine -/
 def ops (op : String) (j : Json) : Option (Except String Json) :=
   match op with
+  | "norm_eval" => some (do
+      let (k, p) ← getPar j
+      let what ← getStr j "what"
+      let xs ← getFloats j "data"
+      match what with
+      | "normalize" =>
+        return Json.arr #[fl (xs.toList.map fun x => optF (normalize k p x)), Json.bool (warns (normRange k p) xs.toList)]
+      | "denormalize" =>
+        return Json.arr #[fl (xs.toList.map fun x => optF (denormalize k p x)), Json.bool (warns (denormRange k p) xs.toList)]
+      | "derivative" =>
+        return Json.arr #[fl (xs.toList.map fun x => optF (derivative k p x)), Json.bool (warns (normRange k p) xs.toList)]
+      | _ => throw s!"norm_eval: unknown what {what}")
+  | "norm_ranges" => some (do
+      let (k, p) ← getPar j
+      return Json.arr #[rngJ (normRange k p), rngJ (denormRange k p), Json.bool (c0 p), Json.bool (c2 p)])
+  | "norm_isclose" => some (do
+      let a ← getFloat j "a"
+      let b ← getFloat j "b"
+      return Json.bool (isclose a b))
+  | "norm_loglik" => some (do
+      let (k, p) ← getPar j
+      let xs ← getFloats j "data"
+      return Json.arr #[fl [kernelLL k p xs.toList, logLik k p xs.toList],
+                        Json.num (JsonNumber.fromNat (checked k p xs.toList).length)])
+  | "norm_pipeline" => some (do
+      let (k, p) ← getPar j
+      let raw ← getFloats j "raw"
+      let mean ← getFloats j "mean"
+      let trend ← getFloats j "trend"
+      if mean.size != raw.size || trend.size != raw.size then throw "norm_pipeline: sizes" else
+      let idx := List.range raw.size
+      let app := idx.map fun i => optF (applyMNT k p mean[i]! trend[i]! raw[i]!)
+      let back := idx.map fun i =>
+        optF ((applyMNT k p mean[i]! trend[i]! raw[i]!).bind (removeTNM k p mean[i]! trend[i]!))
+      let rem := idx.map fun i => optF (removeTNM k p mean[i]! trend[i]! raw[i]!)
+      return Json.arr #[fl app, fl back, fl rem])
   | _ => none
 
 end GSV.Model.Norm
